@@ -230,6 +230,33 @@ def rule_bounded_ends(program, ctx):
             ctx.bad(finding_at(P, rid, evict, "the eviction removes from the newest end or is not bounded by the longest rule interval: entries that still count are dropped (the limit is exceeded)"))
 
 
+def rule_allrules(program, ctx):
+    rid = ctx.rule(
+        "C18.allrules",
+        "RateLimiter.evaluate_rules: every (interval, n) rule of the command is evaluated - inside the loop over the rules only `return True` (limited) may "
+        "leave early; a `return False` / `break` inside it skips the remaining (shorter) rules",
+        floor=1,
+    )
+    fn = program.func("nostr_relay.rate_limiter:RateLimiter.evaluate_rules")
+    loop = next((l for l in ast.walk(fn) if isinstance(l, ast.For) and dotted(l.iter) == "rules"), None)
+    if loop is None:
+        ctx.bad(finding_func(P, rid, fn, "evaluate_rules no longer iterates the rules", text="def evaluate_rules(...) :: loop"))
+        return
+    bad = []
+    for n in ast.walk(loop):
+        if isinstance(n, ast.Return) and not (isinstance(n.value, ast.Constant) and n.value.value is True):
+            bad.append(n)
+        if isinstance(n, ast.Break):
+            # a break of the *inner* timestamp scan is fine; a break of the rule loop is not
+            inner = next((a for a in ancestors(n) if isinstance(a, (ast.For, ast.While))), None)
+            if inner is loop:
+                bad.append(n)
+    if bad:
+        ctx.bad(finding_at(P, rid, bad[0], "the rule loop is left early with a non-limiting verdict: the command's remaining rules (e.g. the per-second rule after the per-hour rule) are never checked"))
+    else:
+        ctx.ok(rid, loop, "all rules evaluated; only `return True` leaves the loop early")
+
+
 def rule_precedence(program, ctx):
     rid = ctx.rule(
         "C18.precedence",
@@ -296,6 +323,7 @@ def run(program, ctx):
     rule_consulted(program, ctx)
     rule_record(program, ctx)
     rule_bounded_ends(program, ctx)
+    rule_allrules(program, ctx)
     rule_precedence(program, ctx)
     rule_cleanup(program, ctx)
     ctx.not_decided += [
